@@ -2,90 +2,37 @@
 
 G: KeyLifecycleMC (TLC): every history of <= MaxOps operations over small threshold/unanimity structures on Z_5,
    every qualified driving set; invariants PkConstant, SharesVerify, ZeroSharingsAreZero, BlindedSumIsSecret,
-   QualifiedReconstruct.
-R: harness/cmd/lifecycle: seeded histories {deal, refresh, recover, redistribute (with/without anchor), unqualified
-   driver, reconstruct from every subset, mixed-epoch reconstruction} on the real code (toy group; real session setup,
-   HJKY and redistribute participants over CBOR bytes).
+   QualifiedReconstruct, SignAlgebra.
+R: harness/cmd/lifecycle: seeded histories {deal | Gennaro | Canetti (rounds or runners), refresh, recover, redistribute
+   (with/without anchor), unqualified driver, reconstruct from every subset, mixed-epoch reconstruction, threshold signing}
+   on the real code (toy group; real session setup, HJKY, redistribute, DKG and Lindell22 participants over CBOR bytes).
 V: KeyLifecycleTrace (TLC): each logged round = the spec action with all parameters bound; the resulting epoch must
    equal the shards the parties output; invariants at every step."""
-import os, json
-import vlib
-
-SPEC = os.path.join(vlib.SPECS, "Lifecycle")
-
-
-def key_of(hist, row, why):
-    a = row.get("a", "?")
-    kind = ""
-    for r in hist:
-        if r.get("a") == "redistR1":
-            kind = r.get("kind", "")
-    return "%s:%s" % (a, kind)
+import json
+import lifecycle_common as lc
 
 
 def run(chk):
-    binary = vlib.build("lifecycle")
     if chk.quick:
-        jobs = [("q251", ["-q", "251", "-n", "150", "-ops", "4", "-parties", "4"]),
+        jobs = [("q251", ["-q", "251", "-n", "120", "-ops", "4", "-parties", "4"]),
                 ("q45971", ["-q", "45971", "-n", "100", "-ops", "4", "-parties", "4"]),
-                ("q11", ["-q", "11", "-n", "100", "-ops", "3", "-parties", "3"])]
+                ("q11", ["-q", "11", "-n", "80", "-ops", "3", "-parties", "3"])]
         mcs = [("KeyLifecycleMC_quick.cfg", 4)]
     else:
-        jobs = [("q251-%d" % i, ["-q", "251", "-n", "400", "-ops", "6", "-parties", "5"]) for i in range(4)] + \
-               [("q45971-%d" % i, ["-q", "45971", "-n", "400", "-ops", "6", "-parties", "5"]) for i in range(4)] + \
-               [("q11-%d" % i, ["-q", "11", "-n", "400", "-ops", "5", "-parties", "4"]) for i in range(2)] + \
+        jobs = [("q251-%d" % i, ["-q", "251", "-n", "300", "-ops", "6", "-parties", "5"]) for i in range(4)] + \
+               [("q45971-%d" % i, ["-q", "45971", "-n", "300", "-ops", "6", "-parties", "5"]) for i in range(4)] + \
+               [("q11-%d" % i, ["-q", "11", "-n", "300", "-ops", "5", "-parties", "4"]) for i in range(2)] + \
                [("q7", ["-q", "7", "-n", "300", "-ops", "5", "-parties", "3"])]
         mcs = [("KeyLifecycleMC_quick.cfg", 4), ("KeyLifecycleMC_ops3.cfg", 6), ("KeyLifecycleMC_rand.cfg", 6)]
-
-    tasks = []
-    for cfg, wk in mcs:
-        tasks.append(("mc:" + cfg, (lambda cfg=cfg, wk=wk: vlib.tlc(SPEC, "KeyLifecycleMC", cfg, workers=wk, timeout=3000))))
-    stats = {"hist": 0, "lines": 0, "by_action": {}, "kinds": {}}
-
-    def rv(tag, args, sub):
-        def fn():
-            rd = vlib.scratch(chk.prop, "drv-" + tag)
-            out = os.path.join(rd, "trace.ndjson")
-            vlib.run_driver(binary, args + ["-out", out, "-seed", str(chk.seed * 1000 + sub)])
-            rows = vlib.read_ndjson(out)
-            hdr, rows = rows[0], rows[1:]
-            hs = vlib.split_histories(rows, lambda r: r.get("a") == "reset")
-            for r in rows:
-                stats["by_action"][r["a"]] = stats["by_action"].get(r["a"], 0) + 1
-                if r["a"] == "redistR1":
-                    stats["kinds"][r["kind"]] = stats["kinds"].get(r["kind"], 0) + 1
-            if hs:
-                chk.sample({"job": tag, "history": [dict((k, v) for k, v in r.items() if k not in ("certs",)) for r in hs[0][:6]]}, cap=3)
-            n = vlib.validate_histories(chk, "trace-" + tag, SPEC, "KeyLifecycleTrace", "KeyLifecycleTrace.cfg", hdr, hs, key_of=key_of)
-            stats["hist"] += n
-            stats["lines"] += len(rows)
-            return n
-        return fn
-    for i, (tag, args) in enumerate(jobs):
-        tasks.append(("rv:" + tag, rv(tag, args, i)))
-    res = vlib.parallel(tasks, max_workers=10)
-    for cfg, _ in mcs:
-        r = res["mc:" + cfg]
-        chk.add_mc("KeyLifecycleMC/" + cfg, r)
-        if r.violation:
-            chk.violation("model:" + r.violation, "the design model itself violates %s (%s)" % (r.violation, cfg), {"cex": r.cex})
-    chk.cov["traces_validated_against_impl"] = stats["hist"]
-    chk.cov["evaluations"] = stats["lines"]
-    chk.cov["distinct_nontrivial"] = stats["by_action"].get("redistR3", 0)
-    chk.cov["by_action"] = stats["by_action"]
-    chk.cov["redistribution_kinds"] = stats["kinds"]
-    chk.cov["rule"] = ("a trace = one seeded history on the real code; counted non-trivial = completed redistributions (refresh / recover / "
-                       "new structure, with and without anchor), each followed by reconstruction from every subset")
-    chk.assumptions += ["toy group (order-q subgroup of Z_p^*) instantiates the generic protocol code; production curves run the same generic code",
-                        "span certificates are computed by the harness but verified by TLC",
-                        "signing with the post-epoch shards is covered by C01"]
-    return chk.finish()
+    return lc.run(chk, jobs, mcs, ["redistR3"],
+                  "a trace = one seeded history on the real code; counted non-trivial = completed redistributions (refresh / recover / new structure, "
+                  "with and without anchor), each followed by reconstruction from every subset and signing with random quorums",
+                  ["toy group (order-q subgroup of Z_p^*) instantiates the generic protocol code; production curves run the same generic code",
+                   "span certificates are computed by the harness but verified by TLC",
+                   "1/q events of the toy group (identity public key, identity effective partial key, zero aggregated response) are guards of the specification"])
 
 
 def replay(chk, path):
     case = json.load(open(path))["case"]
-    rd = vlib.scratch(chk.prop, "replay")
-    rows = [{"a": "hdr", "q": case.get("q", 251)}] + case["history"]
-    print(json.dumps(case["failing_line"])[:2000])
-    print(case["why"])
+    print(json.dumps(case.get("failing_line", case))[:3000])
     return 0
